@@ -223,6 +223,33 @@ inductive Op where
   | increaseLimit (now : Nat) (sender : Addr) (funds : List Coin) (limit : Nat)
   | updateAdmins (now : Nat) (sender : Addr) (admins : List Addr)
   | freeze (now : Nat) (sender : Addr)
+  /-- `migrate` to the same code (only the Merkle crate has a `migrate` entry point; with an unchanged
+  version it returns early without touching storage) -/
+  | migrate (now : Nat) (sender : Addr)
+  /-- any JSON message that is not a variant of the crate's `ExecuteMsg` (deserialisation fails) -/
+  | unknown (now : Nat) (sender : Addr)
+
+/-- the block time an operation is executed at -/
+def Op.now : Op → Nat
+  | .inst now .. => now
+  | .addStage now .. => now
+  | .removeStage now .. => now
+  | .updateStage now .. => now
+  | .addMembers now .. => now
+  | .removeMembers now .. => now
+  | .increaseLimit now .. => now
+  | .updateAdmins now .. => now
+  | .freeze now .. => now
+  | .migrate now .. => now
+  | .unknown now .. => now
+
+def Op.isInst : Op → Bool
+  | .inst .. => true
+  | _ => false
+
+def Op.isUpdateStage : Op → Bool
+  | .updateStage .. => true
+  | _ => false
 
 /-- the flex crate's `Stage` has no `per_address_limit` field: whatever the protocol line carries is dropped -/
 def normStage (v : Variant) (st : Stage) : Stage := if v == .flex then { st with pal := 0 } else st
@@ -378,6 +405,8 @@ def exec (v : Variant) (s : State) : Op → Except Err State
   | .increaseLimit _ _ funds limit => do listBased v; increaseLimit v s funds limit
   | .updateAdmins _ sender admins => updateAdmins s sender admins
   | .freeze _ sender => freeze s sender
+  | .migrate _ _ => if v == .merkle then .ok s else .error .other
+  | .unknown _ _ => .error .invalid
 
 /-- one transaction against the current world. `inst` creates a fresh contract (the new current one). -/
 def step (v : Variant) (w : World) (op : Op) : Except Err World :=
@@ -520,5 +549,21 @@ def stageMemberInfo (v : Variant) (s : State) (id : Nat) (a : Addr) : Except Err
     match s.stages[id]? with
     | none => .error .other
     | some st => .ok (hasKey s.members id a, st.pal)
+
+/-- the loop of `query_all_stage_member_info`: `n` more stages starting at stage `k` -/
+def smiFrom (v : Variant) (s : State) (a : Addr) : Nat → Nat → Except Err (List (Bool × Nat))
+  | 0, _ => .ok []
+  | n + 1, k =>
+    match stageMemberInfo v s k a with
+    | .error e => .error e
+    | .ok r =>
+      match smiFrom v s a n (k + 1) with
+      | .ok l => .ok (r :: l)
+      | .error e => .error e
+
+/-- `query_all_stage_member_info`: one `StageMemberInfo` answer per EXISTING stage, in stage order
+(`for stage_id in 0..config.stages.len()`); fails only when the address does not validate. -/
+def allStageMemberInfo (v : Variant) (s : State) (a : Addr) : Except Err (List (Bool × Nat)) :=
+  if !validAddr a then .error .invalid else smiFrom v s a s.stages.length 0
 
 end LP.Tiered
